@@ -123,11 +123,12 @@ class Checker:
             return ("C16/id-holds-several-leases", str(after))
         if not replies:
             return ("C16/no-reply-to-request", "via %s id %d" % (via, nid))
-        first = replies[0][1]
-        if first["res"] != nid or first["msg"][:2] != bytes([lease & 255, lease >> 8]):
-            return ("C16/reply-does-not-carry-id-and-address", "reply header %s" % first)
-        if first["to"] != (0o4444 if via is None else via):
-            return ("C16/reply-not-addressed-to-requester-side", "reply to %o, request came via %s" % (first["to"], via))
+        for n_, (_e, first) in enumerate(replies):      # the reply, and every re-transmission of it
+            if first["res"] != nid or first["msg"][:2] != bytes([lease & 255, lease >> 8]):
+                return ("C16/reply-does-not-carry-id-and-address", "reply %d of %d: header %s" % (n_ + 1, len(replies), first))
+            if first["to"] != (0o4444 if via is None else via):
+                return ("C16/reply-not-addressed-to-requester-side", "reply %d of %d to %o, request came via %s" % (
+                    n_ + 1, len(replies), first["to"], via))
         return None
 
 
